@@ -103,6 +103,18 @@ func (ss *Session) Assert(t *Term) {
 
 func (ss *Session) Check() Result { return ss.S.Check() }
 
+// OutOfRange decides whether pc allows the integer view of t outside [lo,hi] (integer encoding only).
+func (ss *Session) OutOfRange(t *Term, lo, hi *big.Int) Result {
+	act := "act" + strconv.Itoa(ss.n)
+	ss.n++
+	r := ss.ref(t)
+	ss.S.send("(declare-fun " + act + " () Bool)")
+	ss.S.send("(assert (=> " + act + " (or (< " + r + " " + intLit(lo) + ") (> " + r + " " + intLit(hi) + "))))")
+	return ss.S.CheckCmd("(check-sat-assuming (" + act + "))")
+}
+
+func (ss *Session) LIA() *LIA { return ss.lia }
+
 // CheckAssuming decides pc ∧ t without opening a scope: t is guarded by a fresh activation literal
 // and checked with check-sat-assuming, so the solver keeps what it learned about pc.
 func (ss *Session) CheckAssuming(t *Term) Result {
